@@ -63,8 +63,16 @@ class C17(vlib.Check):
             if kind == "float":
                 for f2 in fps:
                     f2["fp"]["cnt"] = [[i, v if Fraction(v) >= 1 else "2"] for i, v in f2["fp"]["cnt"]]
+            to = rng.choice(KINDS)
+            if kind == "float" and rng.random() < 0.35:
+                # a float database of difference fingerprints / signed weights: negative entries are non-zero positions like any other
+                # (into the count kind they are not representable - uint16 - so only the bit and float views are asked for)
+                for f2 in fps:
+                    f2["fp"]["cnt"] = [[i, v if rng.random() < 0.5 else str(-Fraction(v))] for i, v in f2["fp"]["cnt"]]
+                to = rng.choice(["bit", "bit", "float"])
+                self.count("dbconv:negative-entries")
             self.count("dbconv")
-            yield {"t": "dbconv", "kind": kind, "fps": fps, "to": rng.choice(KINDS)}
+            yield {"t": "dbconv", "kind": kind, "fps": fps, "to": to}
             # views of one count fingerprint through vectors of another dtype, with counts that are ordinary Python ints but do not
             # fit the count vector dtype (sums over many fingerprints): where representable (float64), the values are kept
             g = gen_fp(rng, "count", bits, maxn=8)
